@@ -498,6 +498,10 @@ def zsum(terms):
     return z3.Sum(terms)
 
 
+def _symbolic_member(x):
+    return isinstance(x, VBytes) or (isinstance(x, VInt) and x.conc() is None) or (isinstance(x, VStr) and x.s is None and x.z is not None)
+
+
 def fresh(prefix, sort=None):
     n = '%s!%d' % (prefix, next(_fresh))
     return z3.Const(n, sort if sort is not None else z3.IntSort())
@@ -1875,6 +1879,8 @@ class Exec:
         if b is None:
             if name == 'len':
                 x = A[0]
+                if isinstance(x, VSet) and any(_symbolic_member(y) for y in x.items):
+                    raise ToolLimit('len of a set with members that are not concrete values')
                 if isinstance(x, (VTuple, VList, VSet)):
                     return [(st, VInt(len(self.items(x, st))))]
                 if isinstance(x, VStr) and isinstance(x.s, str):
@@ -2727,8 +2733,12 @@ class Exec:
                     return ('str', x.s)
                 if isinstance(x, VObj) and self.repo.lookup(x.cls, '__eq__') is None and self.repo.lookup(x.cls, '__hash__') is None and not z3.is_expr(x.ref):
                     return ('obj', x.ref)
+                if name == 'add' and _symbolic_member(x):
+                    # an immutable value that is not concrete (octets, a number, a text): kept as a member of its own - whether it equals
+                    # another member is decided where membership is asked (`in`); counting and iterating such a set is out of reach
+                    return ('sym', next(_fresh))
                 raise ToolLimit('set.%s with a member that is not a concrete value' % name)
-            keys = [ckey(x) for x in items]
+            keys = [ckey(x) if not _symbolic_member(x) else ('sym', next(_fresh)) for x in items]
             for x, c in new:
                 k = ckey(x)
                 if name == 'discard':
@@ -2922,7 +2932,7 @@ class Exec:
             rest = list(st.heap[it.cell])
             st.heap[it.cell] = ()
             return rest
-        if isinstance(it, VSet) and it.conds is not None:
+        if isinstance(it, VSet) and (it.conds is not None or any(_symbolic_member(x) for x in it.items)):
             raise ToolLimit('iteration over a set with symbolic membership')
         if isinstance(it, (VList, VTuple, VSet)):
             return self.items(it, st)
